@@ -112,3 +112,13 @@ CHECKS['C07'] = dict(
     note='Regions are enumerated with a representative measure count (the guards compare b with L+c, a with 0 and b with a only: anything '
          'else is outside the fragment and ends with exit 2). Not decided: whether the barlines found are the intended measure boundaries.',
 )
+
+CHECKS['C04'] = dict(
+    category='other',
+    technique='origin check plain = strip(extended) with a character-absence abstract domain; truncation-site rule (note-by-note removal); dispatch-table extraction for Encoding.prefix and TokenizerFactory.create; sibling agreement of the export predicates',
+    text='Decides for every token and option set: each plain tokenizer is its extended counterpart (same configuration) with only the two '
+         'separator characters deleted (an omitted deletion is justified by a proof that the counterpart never returns the character); the basic '
+         'encoding removes signifiers per chord note; headers are ** + prefix + type with prefix+kern == value for the six members; the factory '
+         'is exhaustive; chord export covers all notes and forwards the options; non-note export is verbatim.',
+    note='Not decided: cells whose own text contains the separator characters. Trusted: Python str.replace/split/join semantics.',
+)
